@@ -20,6 +20,7 @@ import (
 
 	"go.brendoncarroll.net/p2p"
 	"go.brendoncarroll.net/p2p/f/x509"
+	"go.brendoncarroll.net/p2p/p/p2pke"
 	"go.brendoncarroll.net/p2p/s/memswarm"
 	"go.brendoncarroll.net/p2p/s/p2pkeswarm"
 	"go.brendoncarroll.net/p2p/s/quicswarm"
@@ -47,7 +48,9 @@ func secureOracle(r *rand.Rand, n int, tier string, infile string) (cases int, f
 		}
 	}
 	for i := 0; i < n; i++ {
-		switch (oracleOffset + i) % 6 {
+		switch (oracleOffset + i) % 7 {
+		case 6:
+			cases += whitelistReplayCase(r, bad)
 		case 5:
 			cases += wlCase(r, bad)
 		case 4:
@@ -63,6 +66,88 @@ func secureOracle(r *rand.Rand, n int, tier string, infile string) (cases int, f
 		}
 	}
 	return cases, fails
+}
+
+// whitelistReplayCase: node A admits only the identity of W. The adversary M holds only its own key and sits at its own
+// transport address; it has seen one InitHello of W (W once dialled M's address). M repeats that InitHello to A (the
+// whitelist is asked about W's key and says yes), then runs an ordinary handshake with its own key from the same
+// transport address and sends. A must deliver nothing: the whitelist decision belongs to the key that completes the
+// handshake, not to the first key that was offered from that address.
+func whitelistReplayCase(r *rand.Rand, bad func(string, ...any)) int {
+	ctx, cf := context.WithTimeout(context.Background(), 6*time.Second)
+	defer cf()
+	realm := memswarm.NewRealm(memswarm.WithQueueLen(16), memswarm.WithMTU(2000))
+	kA, kW, kM := testPrivKey(400+r.Intn(50)), testPrivKey(500+r.Intn(50)), testPrivKey(600+r.Intn(50))
+	w := p2pkeswarm.New[memswarm.Addr](realm.NewSwarm(), kW)
+	defer w.Close()
+	idW := w.LocalAddrs()[0].ID
+	a := p2pkeswarm.New[memswarm.Addr](realm.NewSwarm(), kA, p2pkeswarm.WithWhitelist[memswarm.Addr](func(x p2pkeswarm.Addr[memswarm.Addr]) bool {
+		return x.ID == idW
+	}))
+	defer a.Close()
+	rawM := realm.NewSwarm()
+	defer rawM.Close()
+	addrA := a.LocalAddrs()[0].Addr
+	addrM := rawM.LocalAddrs()[0]
+	// 1. W dials M's transport address; M records W's InitHello
+	go func() {
+		tctx, tcf := context.WithTimeout(ctx, 500*time.Millisecond)
+		defer tcf()
+		w.Tell(tctx, p2pkeswarm.Addr[memswarm.Addr]{ID: a.LocalAddrs()[0].ID, Addr: addrM}, p2p.IOVec{[]byte("hello friend")})
+	}()
+	var helloW []byte
+	for helloW == nil {
+		var msg p2p.Message[memswarm.Addr]
+		if err := p2p.Receive[memswarm.Addr](ctx, rawM, &msg); err != nil {
+			return 1 // inconclusive: W's hello never came
+		}
+		if p2pke.IsInitHello(msg.Payload) {
+			helloW = append([]byte{}, msg.Payload...)
+		}
+	}
+	// 2. M repeats it to A and waits for A's answer
+	if rawM.Tell(ctx, addrA, p2p.IOVec{helloW}) != nil {
+		return 1
+	}
+	for {
+		var msg p2p.Message[memswarm.Addr]
+		if err := p2p.Receive[memswarm.Addr](ctx, rawM, &msg); err != nil {
+			return 1
+		}
+		if msg.Src == addrA && p2pke.IsRespHello(msg.Payload) {
+			break
+		}
+	}
+	// 3. M runs the protocol with its own key
+	chM := p2pke.NewChannel(p2pke.ChannelConfig{
+		PrivateKey: kM,
+		AcceptKey:  func(*x509.PublicKey) bool { return true },
+		Send:       func(x []byte) { rawM.Tell(ctx, addrA, p2p.IOVec{x}) },
+	})
+	defer chM.Close()
+	go func() {
+		for {
+			var msg p2p.Message[memswarm.Addr]
+			if err := p2p.Receive[memswarm.Addr](ctx, rawM, &msg); err != nil {
+				return
+			}
+			if msg.Src == addrA {
+				chM.Deliver(nil, msg.Payload)
+			}
+		}
+	}()
+	go func() {
+		sctx, scf := context.WithTimeout(ctx, 1200*time.Millisecond)
+		defer scf()
+		chM.Send(sctx, p2p.IOVec{[]byte("from M")})
+	}()
+	rctx, rcf := context.WithTimeout(ctx, 1500*time.Millisecond)
+	defer rcf()
+	var got p2p.Message[p2pkeswarm.Addr[memswarm.Addr]]
+	if err := p2p.Receive[p2pkeswarm.Addr[memswarm.Addr]](rctx, a, &got); err == nil {
+		bad("C04 p2pkeswarm: the whitelist admits only %v, but %q from %v was delivered after a replayed InitHello of the admitted peer", idW, got.Payload, got.Src.ID)
+	}
+	return 1
 }
 
 type seenMsg struct {
